@@ -35,10 +35,10 @@ LIVENESS, as a measure (`rank`: Pending 4, Ready 3, Creating 2, Running 1, termi
   (groups of non-terminal jobs are `running`: the accounting invariant of C06) and an active instance with capacity.
 * only stated: `ActorStepsTerminate` (the lexicographic measure with the bound on Running → Ready regressions).
 
-The model is more permissive than the real database in one place that matters here: the real `is_job_cancelled` (119) raises
-MySQL error 1242 when two ancestors-or-self of the job's group are cancelled; the model's `jobCancelled` is total.  With two
-cancelled ancestors the real `schedule_job` / `mark_job_started` fail instead of answering rc 1, and `always_run_still_runs`
-describes the model, not that failure.
+Since repo commit 2813d614a (migration 121 + `LIMIT 1` in the scheduler's cancelled-ancestor subqueries) the real
+`is_job_cancelled` is total like the model's `jobCancelled`, and `user_runnable_jobs` selects a job once whatever the number of
+cancelled ancestors: `always_run_still_runs` and `scheduler_makes_progress` now describe the real system also for a job under two or
+more cancelled groups (before, `schedule_job` / `mark_job_started` failed there with MySQL error 1242).
 -/
 namespace HailVerif.C39
 open HailVerif.BatchDB
